@@ -74,6 +74,16 @@ func genC05(t *rapid.T) c05Case {
 		vm.Set("propertyConstraints", m.YMap().Set("ex.typed", c))
 		text = appendValidation(text, "vtyped", vm)
 	}
+	// node ids that are absolute IRIs of other schemes, among them schemes spelled like the validator's built-in
+	// prefixes (data:, doc:, core:): an id is an IRI, not a compact IRI, unless the document's own context says so
+	if rapid.Bool().Draw(t, "schemeIds") {
+		schemes := []string{"data:image/png;base64,AAAA", "data:n", "doc:Root", "core:n", "meta:x/", "security:scheme#", "shacl:n", "urn:uuid:0000-", "mailto:a@ex.org?n=", "tag:ex.org,2020:n", "file:///a/b.json#/x/", "amf://id#"}
+		for i, n := range g.Nodes {
+			if rapid.IntRange(0, 2).Draw(t, "schemeId") == 0 {
+				n.ID = fmt.Sprintf("%s%d", pick(t, schemes, "scheme"), i)
+			}
+		}
+	}
 	return c05Case{ProfileText: text, Graph: g, A: genLDOpts(t, len(g.Nodes)), B: genLDOpts(t, len(g.Nodes))}
 }
 
